@@ -290,7 +290,7 @@ def _final(s, hid):
             "store": s.store_keys(hid), "stuck": bool(stuck), "idle": row["idle"], "live_loops": s.live_loops(hid)}
 
 
-def crash_cases(prog, workdir, order="fifo", seed=0, ext=(), horizon_ms=60000, idle_timeout=1000.0):
+def crash_cases(prog, workdir, order="fifo", seed=0, ext=(), horizon_ms=60000, idle_timeout=1000.0, ks=None):
     """Reference run to the end, then for every k: stop the process right after the k-th persisted tick, start a
     brand-new server on the same SQLite file, let PersistenceDecorator._on_server_start resume, run to the end."""
     import os
@@ -310,7 +310,9 @@ def crash_cases(prog, workdir, order="fifo", seed=0, ext=(), horizon_ms=60000, i
         kinds = [r["tick"]["k"] for r in s.trace if r["e"] == "tick"]
     finally:
         s.close()
-    for k in range(1, nticks + 1):
+    if callable(ks):
+        ks = ks(kinds)
+    for k in (range(1, nticks + 1) if ks is None else [x for x in ks if x <= nticks]):
         db = os.path.join(str(workdir), "crash_%s_%d_%d.db" % (order, seed, k))
         s = ServerSystem(prog, db_path=db, idle_timeout=idle_timeout, crash_after_tick=k)
         try:
